@@ -870,7 +870,10 @@ static void inline make_inflate_huff_code_header(struct inflate_huff_code_small 
 static int
 header_matches_pregen(struct inflate_state *state)
 {
-#ifndef ISAL_STATIC_INFLATE_TABLE
+#if !defined(ISAL_STATIC_INFLATE_TABLE) || (IGZIP_HIST_SIZE <= 8192)
+        /* The pregenerated decode tables in static_inflate.h belong to the header of
+         * the large window hufftables_default; builds with IGZIP_HIST_SIZE <= 8K (or
+         * LONGER_HUFFTABLE, which implies it) use a different default header */
         return 0;
 #else
         uint8_t *in, *hdr;
